@@ -386,6 +386,19 @@ def corpus():
     add("icmp-other", eth(0x0800, ip4(1, icmp(13, 0, b"\x01\x02\x03\x04\x05"))))
     add("lldp-full", eth(0x88cc, lldp_full(), dst=bytes.fromhex("0180c200000e")))
     add("lldp-discovery", eth(0x88cc, lldp_discovery(), dst=bytes.fromhex("0180c200000e")))
+    # text-typed fields with bytes that are not ASCII / not UTF-8 (whoever prints or decodes them must cope with every byte value):
+    # chassis / port id strings, port description, system name, system description (the discovery handler reads "dpid:…" lines from it)
+    NDP_MC = bytes.fromhex("012320000001")          # pkt.ETHERNET.NDP_MULTICAST: the destination pox.openflow.discovery sends to and listens on
+    add("lldp-discovery-pox", eth(0x88cc, lldp_discovery(), dst=NDP_MC))
+    add("lldp-full-pox", eth(0x88cc, lldp_full(), dst=NDP_MC))
+    T = lambda t, body, k: H(struct.pack("!H", (t << 9) | len(body)) + body, 2, keys=(0, 1, 2 + k))      # key: one byte of the text
+    add("lldp-text-nonascii", eth(0x88cc, cat(T(1, b"\x07" + b"dpid:\xff\xfe", 6), T(2, b"\x07" + b"\xc3\x28", 1), tlv(3, struct.pack("!H", 120)),
+                                             T(4, b"\xe9t\xe9", 0), T(5, b"sw\xff\xc0", 2), T(6, b"\x80\x81 dpid:1", 0), tlv(0, b"")), dst=NDP_MC))
+    add("lldp-sysdesc-utf8", eth(0x88cc, cat(tlv(1, b"\x07" + b"dpid:1"), tlv(2, b"\x02" + b"3"), tlv(3, struct.pack("!H", 120)),
+                                            T(6, "dpid:1\nsw\u00e9\u20ac".encode(), 7), tlv(0, b"")), dst=NDP_MC))
+    add("lldp-sysdesc-latin1", eth(0x88cc, cat(tlv(1, b"\x07" + b"dpid:1"), tlv(2, b"\x02" + b"3"), tlv(3, struct.pack("!H", 120)),
+                                              T(6, b"caf\xe9\ndpid:1", 3), tlv(0, b"")), dst=NDP_MC))
+    add("lldp-chassis-nonhex", eth(0x88cc, cat(T(1, b"\x07" + b"dpid:\xd9\xa1\xd9\xa2", 6), tlv(2, b"\x02" + b"3"), tlv(3, struct.pack("!H", 120)), tlv(0, b"")), dst=NDP_MC))
     add("ip6-none", eth(0x86dd, ip6(59, b"")))
     add("ip6-raw", eth(0x86dd, ip6(253, b"experimental6")))
     add("ip6-udp", eth(0x86dd, ip6(17, udp(1000, 2000, b"six"))))
@@ -439,6 +452,8 @@ def corpus():
                                                                (59, struct.pack("!I", 3150)), (28, bytes([10, 0, 0, 255])), (50, bytes([10, 0, 0, 100])), (255, b"")])))))
     add("dhcp-overload", eth(0x0800, ip4(17, udp(67, 68, dhcp(2, [(52, b"\x03"), (53, b"\x05"), (255, b"")], sname=bytes([12, 2]) + b"sn" + b"\xff", file=bytes([67, 4]) + b"boot" + b"\xff")))))
     add("bootp", eth(0x0800, ip4(17, udp(68, 67, dhcp(1, [], magic=b"\0\0\0\0")))))
+    add("dhcp-text-nonascii", eth(0x0800, ip4(17, udp(68, 67, dhcp(1, [(53, b"\x01"), (12, b"h\xf4st\xff"), (15, b"\xc3\x28.example"), (60, b"\x80vendor"),
+                                                                    (61, b"\x00\xffid"), (255, b"")], sname=b"srv\xe9\xff", file=b"\xfeboot\x80")))))
     add("dhcp-hlen16", eth(0x0800, ip4(17, udp(68, 67, dhcp(1, [(255, b"")], hlen=16)))))
     ex = dname(b"www", b"example", b"com")
     add("dns-query", eth(0x0800, ip4(17, udp(33333, 53, dns(0xbeef, 0x0100, [(ex, 1, 1)])))))
@@ -475,6 +490,23 @@ def corpus():
     D("dns-rr-rdata-ptr-loop", [], ans=[(short, 5, 1, 60, b"\xc0\x1c")])
     D("dns-counts-lie", [(short, 1, 1)], counts=(2, 1, 0, 0), namekeys="none")
     D("dns-many-questions", [(short, 1, 1)], counts=(65535, 65535, 65535, 65535), namekeys="none")
+    # rare values at a particular position (HARDENING 3): the boundary between a length and an ethertype (1500, 1535, 1536, 1537); zero
+    # wherever truthiness could be tested instead of `is None` (ids, ports, keys, sequence numbers, VNI, labels, TTLs, metric 0);
+    # signed / unsigned boundaries of 32-bit fields read with struct 'i' / 'I'
+    for t in (0x05dc, 0x05ff, 0x0600, 0x0601):
+        add("eth-type-%04x" % t, eth(t, MB(b"\xaa\xaa\x03\x00\x00\x00\x08\x06" + b"boundary")))
+    add("zero-vxlan", eth(0x0800, ip4(17, udp(0, 4789, vxlan(0, eth(0x0806, arp(1, spa=0, tpa=0)))), ident=0, ttl=0)))
+    add("zero-gre", eth(0x0800, ip4(47, gre(0x0800, ip4(17, udp(0, 0, b"")), csum=True, key=0, seq=0))))
+    add("zero-tcp", eth(0x0800, ip4(6, tcp(0, 0, b"", flags=0))))
+    add("zero-echo", eth(0x0800, ip4(1, icmp(8, 0, echo(0, 0, b"")))))
+    add("zero-mpls", eth(0x8847, mpls(0, 1, MB(b"z"), tc=0, ttl=0)))
+    add("zero-eap", eth(0x888e, eapol(0, 0, eap(1, 0, b"\x00"))))
+    add("zero-dns", eth(0x0800, ip4(17, udp(53, 0, dns(0, 0, [])))))
+    add("zero-vlan", eth(0x8100, vlan(0x0806, arp(1), pcp=0, cfi=0, vid=0)))
+    add("zero-ip6", eth(0x86dd, ip6(17, udp(0, 0, b""), hop=0, src=bytes(16), dst=bytes(16))))
+    add("rip-metric-bounds", eth(0x0800, ip4(17, udp(520, 520, rip(2, 2, [(2, 0, 0x0a000000, 0xff000000, 0, 0), (2, 0, 0x7fffffff, 0x80000000, 0xffffffff, 0x7fffffff),
+                                                                          (2, 65535, 0x80000000, 0xffffffff, 0x80000000, 0x80000000), (0xffff, 0, 0, 0, 0, 0xffffffff)])))))
+    add("igmp-high-addr", eth(0x0800, ip4(2, igmp2(0x16, 0, 0xffffffff))))
     add("eapol-start", eth(0x888e, eapol(1, 1, b"")))
     add("eapol-logoff", eth(0x888e, eapol(2, 2, b"")))
     add("eapol-key", eth(0x888e, eapol(2, 3, b"\x02" + b"\0" * 20)))
